@@ -48,6 +48,12 @@ Proof. exact vstacksecret_roundtrip. Qed.
 Print Assumptions C11_stacksecret_roundtrip.
 
 (* stacks do not reset on import: the statement of C11 is about fresh objects for them *)
+(* QR-encoded stack secrets: TMCG_StackSecret<TMCG_CardSecret>, index component a permutation, every secret within the limits *)
+Theorem C11_tmcg_stacksecret_roundtrip : forall ss, wf_tstacksecret ss ->
+  import_tstacksecret [] (export_tstacksecret ss) = Some ss.
+Proof. exact tstacksecret_roundtrip. Qed.
+Print Assumptions C11_tmcg_stacksecret_roundtrip.
+
 Theorem C11_stack_import_appends : forall old st, (1 <= length st <= Z.to_nat TMCG_MAX_CARDS)%nat ->
   import_vstack old (export_vstack st) = Some (old ++ st).
 Proof. exact vstack_import_appends. Qed.
